@@ -343,10 +343,15 @@ namespace foonathan
                 if (auto remaining = std::size_t(block_end() - stack_.top()))
                 {
                     auto offset = detail::align_offset(stack_.top(), detail::max_alignment);
-                    if (offset < remaining)
+                    // only hand over a remainder that holds at least one node
+                    if (offset < remaining
+                        && pool.usable_size(remaining - offset) >= pool.node_size())
                     {
+                        auto mem = stack_.top() + offset;
                         detail::debug_fill(stack_.top(), offset, debug_magic::alignment_memory);
-                        pool.insert(stack_.top() + offset, remaining - offset);
+                        // the remainder belongs to the pool now, it must not be reserved again
+                        stack_.bump(remaining);
+                        pool.insert(mem, remaining - offset);
                         return true;
                     }
                 }
